@@ -18,6 +18,8 @@
    gc_seen_t / gc_seen_f           row a, bit b: Less(i,j) returned true / false for some slice
                                    and positions with s[i] = univ[a], s[j] = univ[b] (all slices
                                    of <= 4 elements over gc_univ when exhaustive)
+   gc_lenswap                      Len() returned the slice length and Swap(i,j) exchanged exactly
+                                   elements i and j, on every slice the driver built
    gc_runs                         random slices (indices into gc_univ; element p carries id p)
                                    with the ids after sort.Sort and after sort.Stable
 
@@ -26,7 +28,7 @@
    sort.Stable the stable one), 2 when it satisfies the specification but not the model.     *)
 From Coq Require Import List Bool ZArith NArith String Arith.
 From GT Require Import Base.Verdict.
-From GT Require Import GSortModel GSortTagModel Base.SortU.
+From GT Require Import GSortModel GSortTagModel GSortTextModel Base.SortU.
 Import ListNotations.
 
 (* a list of small numbers (indices, ids) is written as a string, three lower-case hexadecimal
@@ -39,6 +41,7 @@ Record gs_case := {
   gc_text : list string;
   gc_vals : list (list (list val));
   gc_seen_t : list N; gc_seen_f : list N;
+  gc_lenswap : bool;
   gc_runs : list gs_run }.
 
 Definition hexv (c : Ascii.ascii) : nat :=
@@ -129,15 +132,38 @@ Definition run_ok (lt : ltT) (univ : list elem) (r : gs_run) : bool :=
 
 Definition obs_ok (lt : ltT) (c : gs_case) : bool :=
   let u := gc_univ c in
-  rows_ok lt u u (gc_seen_t c) (gc_seen_f c) && forallb (run_ok lt u) (gc_runs c).
+  rows_ok lt u u (gc_seen_t c) (gc_seen_f c) && forallb (run_ok lt u) (gc_runs c)
+  && gc_lenswap c.
 Definition obs_cov (c : gs_case) : bool :=
   let u := gc_univ c in rows_cov u u (gc_seen_t c) (gc_seen_f c).
 
-(* the definition is inside the property's quantifier: some tag, and every sorter's priorities
-   pairwise distinct *)
+(* ---- the generated TEXT, given a meaning inside Coq (GSortTextModel.v): the Less body of the
+   sorter's block is parsed into the emitted Go statements and evaluated on every pair of the
+   universe.  0 = parsed and equal to `lt` everywhere, 1 = parsed and different somewhere (or
+   an operand ill-typed), 2 = the text is not of the form the parser knows (re-spelled template:
+   no judgement from the text, the compiled behaviour is still judged) *)
+Definition text_sem (fs : list fieldT) (lt : ltT) (c : gs_case) : nat :=
+  match text_less fs (gc_text c) with
+  | None => 2
+  | Some f =>
+      let u := gc_univ c in
+      if forallb (fun a => forallb (fun b => match f a b with
+                                             | Some v => Bool.eqb v (lt a b)
+                                             | None => false
+                                             end) u) u
+      then 0 else 1
+  end.
+
+(* Len / Swap of the generated type (sort.Interface): observed on every run slice by the
+   driver: Len() = number of elements, Swap(i,j) exchanges exactly the two elements *)
+
+(* the definition is inside the property's quantifier: some tag, every sorter's priorities
+   pairwise distinct, and no sorter name used in both forms (`S` and `*S` would both declare the
+   slice type S; refused by the generator since ac707f2) *)
 Definition in_domain (fs : list fieldT) : bool :=
   negb (Nat.eqb (List.length (all_sfds fs)) 0)
-  && forallb (fun n => prios_distinct n fs) (sorter_names fs).
+  && forallb (fun n => prios_distinct n fs) (sorter_names fs)
+  && forms_ok (collect "" fs).
 
 Definition gs_judge_with
   (model : string -> list fieldT -> string -> option ltT) (c : gs_case) : nat :=
@@ -154,8 +180,10 @@ Definition gs_judge_with
     match m, parsed with
     | Some lt, Some fs =>
         if gc_wellformed c && negb (fields_eqb fs intended) then 2
-        else verdict (obs_ok (spec_less (gc_sorter c) (if gc_wellformed c then intended else fs)) c)
-                     (obs_ok lt c && obs_cov c)
+        else let dfs := if gc_wellformed c then intended else fs in
+             verdict (obs_ok (spec_less (gc_sorter c) dfs) c)
+                     (obs_ok lt c && obs_cov c
+                      && negb (Nat.eqb (text_sem dfs (spec_less (gc_sorter c) dfs) c) 1))
     | _, _ => 2
     end.
 Definition gs_judge := gs_judge_with gen_less.
@@ -180,4 +208,8 @@ Definition text_ok_with (str : cmpline -> string) (c : gs_case) : bool :=
                end
   end.
 Definition gs_text_ok := text_ok_with cl_string.
+(* informational: was the text of the case given a meaning (parsed)? *)
+Definition gs_text_parsed (c : gs_case) : bool :=
+  negb (gc_gen_ok c)
+  || match text_less (gc_fields c) (gc_text c) with Some _ => true | None => false end.
 Definition gs_text_orig_ok := text_ok_with cl_string_orig.
